@@ -8,7 +8,7 @@ from ..callgraph import reachable
 from ..core import AnalysisError
 from ..pydb import norm, params_of, walk_no_nested
 from ..rules_g import Row, run_row, I, S, Mult, Pred, OBJ, B, U, INT, LEN, INJECT
-from ..rules_x import Escapes, x2_sites, x3_sites
+from ..rules_x import Escapes, x2_sites, x3_sites, x3_variable_sites
 
 EXPLANATION = (
     "Rule X: exception-escape closure over the decoder layer (asn1, PEM, PKCS8, "
@@ -171,6 +171,9 @@ def run(check, ctx):
         x3 = dict((id(s), (name, k, ok, mn)) for (s, name, k, ok, mn) in x3_sites(f))
         for sid, (name, k, ok, mn) in x3.items():
             n_x3 += 1
+        for (node, name, mx, mn) in x3_variable_sites(f):
+            n_x3 += 1
+            intrinsic.setdefault(id(f), []).append((node, "IndexError", "%s: the index reaches %d but DerSequence.decode only guarantees %s members" % (norm(node), mx, mn)))
         for node in x4_sites(repo, m, f):
             n_x4 += 1
             key3 = (tail, f._qualname, norm(node))
@@ -198,6 +201,12 @@ def run(check, ctx):
         n_x6 += 1
         intrinsic.setdefault(id(f), []).append((node, "TypeError", why))
     check.count("x6_non_integer_member_sites", n_x6)
+    from .c13_extra import x7_sites
+    n_x7 = 0
+    for (m, f, node, why) in x7_sites(repo, funcs):
+        n_x7 += 1
+        intrinsic.setdefault(id(f), []).append((node, "KeyError", why))
+    check.count("x7_dictionary_lookup_sites", n_x7)
     E = Escapes(repo, intrinsic, follow=lambda mod: mod.name in DEC,
                 suppress_edges=X4_EDGES)
     # --- obligations at the entry points -----------------------------------
@@ -242,6 +251,8 @@ def run(check, ctx):
                      expected="%s raises only %s for arbitrary input bytes" % (q, "/".join(allowed)))
     check.floor("X", 25)
     strictness(check, repo)
+    from .c13_extra import der_writer_rows
+    der_writer_rows(check, repo)
     regex_lint(check, repo)
     kdf_gate(check, repo)
     check.assume("exception model: explicit raises along resolved calls inside the "
